@@ -128,6 +128,11 @@ func main() {
 		c.LoadReplay(&rc)
 		if rc.Kind == "stale" {
 			r.staleOldRoot()
+		} else if rc.Kind == "fixture" || rc.Kind == "probe" {
+			r.fixtures()
+			if rc.Kind == "probe" {
+				r.runChain(rc.ChainSeed)
+			}
 		} else {
 			r.only = &rc
 			r.runChain(rc.ChainSeed)
@@ -136,6 +141,7 @@ func main() {
 	}
 	r.staleOldRoot()
 	r.crossingProbe()
+	r.fixtures()
 	rng := hx.NewRNG(c.Seed)
 	start := time.Now()
 	chains := 0
